@@ -25,6 +25,8 @@ pub use crate::transaction_verifier::{
     NonContextualTransactionVerifier, ScriptVerifier, Since, SinceMetric,
     TimeRelativeTransactionVerifier,
 };
+#[cfg(feature = "verif-hooks")]
+pub use crate::transaction_verifier::{MaturityVerifier, SinceVerifier};
 pub use ckb_script::{
     ScriptError, ScriptGroupType, TransactionState as ScriptVerifyState, TxVerifyEnv,
     VerifyResult as ScriptVerifyResult,
